@@ -74,6 +74,11 @@ def _cases(tier, rng):
         for cfg in cfgs:
             yield {"prog": prog, "cfg": cfg, "seed": rng.randrange(10**6)}
         q += 1
+    # consumers that read blocks (slices over internal and mapped axes) of an output with an interior internal axis
+    for q in range(8 if tier == "quick" else 80):
+        prog = progs.gen_internal_consumer_program(rng)
+        for cfg in CONFIGS_QUICK:
+            yield {"prog": prog, "cfg": cfg, "seed": rng.randrange(10**6)}
 
 
 def _mk_executor(kind, seed):
